@@ -27,6 +27,7 @@ if [ "${1:-}" = "--replay" ]; then
 fi
 tier="${1:-quick}"
 if [ "$tier" = quick ]; then fanouts="3 4 16"; else fanouts="3 4 5 6 16"; fi
+if [ "$tier" = "--build" ]; then for f in 3 4 5 6 16; do build_variant $f; done; exit 0; fi
 pids=""
 for f in $fanouts; do ( build_variant $f; echo $? > $B/rc$f ) & pids="$pids $!"; done
 wait $pids
